@@ -74,6 +74,12 @@ def gen_control(repo):
     li = func_body(src, 'loadintfd', rel)
     c['LOADINT_MODE'] = int(one(r'lloadfilefd\(\s*fd\s*,\s*&tmpbuf\s*,\s*(\d+)\s*\)', li, 'loadintfd mode'))
     c['LOADINT_BASE'] = int(one(r'strtoul\(\s*tmpbuf\s*,\s*&l\s*,\s*(\d+)\s*\)', li, 'loadintfd strtoul base'))
+    # the strict form of loadintfd (fixes/C16-loadint-strict.diff): one line, starts with a digit, no overflow
+    m = one(r"\(\s*strlen\(tmpbuf\)\s*\+\s*1\s*!=\s*i\s*\)\s*\|\|\s*\(\s*\*tmpbuf\s*<\s*" + CH + r"\s*\)\s*\|\|\s*\(\s*\*tmpbuf\s*>\s*" + CH + r"\s*\)", li,
+            'loadintfd single line / leading digit test')
+    c['LOADINT_DIGIT_LO'], c['LOADINT_DIGIT_HI'] = ch(m[0]), ch(m[1])
+    need(r'errno\s*=\s*0;\s*\*result\s*=\s*strtoul', li, 'loadintfd: errno reset before strtoul')
+    need(r'if\s*\(\s*\*l\s*\|\|\s*\(\s*errno\s*==\s*ERANGE\s*\)\s*\)\s*\{\s*errno\s*=\s*EINVAL;', li, 'loadintfd: trailing garbage / ERANGE test')
     c['LOADONELINER_MODE'] = int(one(r'lloadfilefd\(\s*fd\s*,\s*buf\s*,\s*(\d+)\s*\)', func_body(src, 'loadonelinerfd', rel), 'loadonelinerfd mode'))
 
     # ------------------------------------------------------------ lib/match.c
@@ -112,7 +118,7 @@ def gen_control(repo):
     need(r'check_ipbl_file\(\s*sizeof\(struct in_addr\)\s*,\s*len\s*,\s*buf\s*,\s*\(ip_matchnet\)ip4_matchnet\s*\)', src, 'check_ip4')
     need(r'check_ipbl_file\(\s*sizeof\(struct in6_addr\)\s*,\s*len\s*,\s*buf\s*,\s*\(ip_matchnet\)ip6_matchnet\s*\)', src, 'check_ip6')
 
-    chars = {'FD_LF', 'FD_COMMENT', 'FD_BLANK_A', 'FD_BLANK_B', 'FD_DOT', 'LL_COMMENT', 'LL_ESC', 'LL_LF', 'LL_BLANK_A', 'LL_BLANK_B'}
+    chars = {'LOADINT_DIGIT_LO', 'LOADINT_DIGIT_HI', 'FD_LF', 'FD_COMMENT', 'FD_BLANK_A', 'FD_BLANK_B', 'FD_DOT', 'LL_COMMENT', 'LL_ESC', 'LL_LF', 'LL_BLANK_A', 'LL_BLANK_B'}
     for k, v in c.items():
         out += 'Definition %s : %s := %d%s.\n' % (k, 'N' if k in chars else 'nat', v, '%N' if k in chars else '')
     return out
